@@ -1,31 +1,47 @@
 #!/bin/bash
 # Detection matrix: apply every seeded change (seeded/<id>/patch.diff) to a scratch worktree of /repo's HEAD (outside /repo
 # and /verif), run every registered quick check against it (KV_REPO), and record which checks report a violation.
-# usage: tools/detect_matrix.sh [out-dir] [seed ...]      (default: all seeds; out-dir default: ./matrix_out)
+# usage: [LANES=n] tools/detect_matrix.sh [out-dir] [seed ...]      (default: all seeds; out-dir default: ./matrix_out)
 set -u
 HERE=$(cd "$(dirname "$0")/.." && pwd)
 OUT=${1:-$HERE/matrix_out}; shift || true
 mkdir -p "$OUT"
 SEEDS=${*:-$(ls -d "$HERE"/seeded/C??_? | xargs -n1 basename)}
 PROPS=$(python3 -c "import json;print(' '.join(c['property_id'] for c in json.load(open('$HERE/MANIFEST.json'))['checks']))")
-WT=$(mktemp -d /tmp/kv_matrix_XXXXXX)
-git -C /repo worktree add -q --detach "$WT" HEAD || exit 2
-trap 'git -C /repo worktree remove --force "$WT" 2>/dev/null; rm -rf "$WT"' EXIT
-: > "$OUT/summary.txt"
-for S in $SEEDS; do
-  P="$HERE/seeded/$S/patch.diff"
-  git -C "$WT" reset -q --hard; git -C "$WT" clean -fdq
-  if ! git -C "$WT" apply "$P" 2>/dev/null; then echo "$S APPLY_FAILED" >> "$OUT/summary.txt"; continue; fi
-  row=""
-  for p in $PROPS; do
-    KV_REPO="$WT" "$HERE/check" "$p" --tier quick > "$OUT/$S.$p.log" 2>&1; rc=$?
-    if [ $rc -ne 0 ]; then
-      rules=$(grep "^VIOLATION\|rule=" "$OUT/$S.$p.log" | grep -o "rule=[A-Z0-9-]*" | sort -u | sed 's/rule=//' | tr '\n' ',' | sed 's/,$//')
-      row="$row $p:exit$rc[$rules]"
-    else
-      rm -f "$OUT/$S.$p.log"
-    fi
+LANES=${LANES:-3}
+
+lane() {   # lane <n> <seed...>
+  local N=$1; shift
+  local WT; WT=$(mktemp -d /tmp/kv_matrix_XXXXXX)
+  git -C /repo worktree add -q --detach "$WT" HEAD || return 2
+  : > "$OUT/summary.$N.txt"
+  for S in "$@"; do
+    P="$HERE/seeded/$S/patch.diff"
+    git -C "$WT" reset -q --hard; git -C "$WT" clean -fdq
+    if ! git -C "$WT" apply "$P" 2>/dev/null; then echo "$S APPLY_FAILED" >> "$OUT/summary.$N.txt"; continue; fi
+    row=""
+    for p in $PROPS; do
+      KV_REPO="$WT" "$HERE/check" "$p" --tier quick > "$OUT/$S.$p.log" 2>&1; rc=$?
+      if [ $rc -ne 0 ]; then
+        rules=$(grep "^VIOLATION\|rule=" "$OUT/$S.$p.log" | grep -o "rule=[A-Z0-9-]*" | sort -u | sed 's/rule=//' | tr '\n' ',' | sed 's/,$//')
+        row="$row $p:exit$rc[$rules]"
+      else
+        rm -f "$OUT/$S.$p.log"
+      fi
+    done
+    echo "$S$row" >> "$OUT/summary.$N.txt"
   done
-  echo "$S$row" >> "$OUT/summary.txt"
+  git -C /repo worktree remove --force "$WT" 2>/dev/null; rm -rf "$WT"
+}
+
+# make sure the driver is built before the lanes start (they would race on the build otherwise)
+"$HERE/check" C10 --tier quick > /dev/null 2>&1
+i=0
+for n in $(seq 1 "$LANES"); do
+  mine=$(echo $SEEDS | tr ' ' '\n' | awk -v n="$n" -v k="$LANES" '(NR-1)%k==n-1' | tr '\n' ' ')
+  [ -n "$mine" ] && lane "$n" $mine &
 done
+wait
+cat "$OUT"/summary.[0-9]*.txt | sort > "$OUT/summary.txt"
+rm -f "$OUT"/summary.[0-9]*.txt
 cat "$OUT/summary.txt"
